@@ -65,7 +65,7 @@ def c03(ctx: Ctx):
         log("[gen] %d distinct documents" % ncases)
     ctx.build_driver()
     logp = os.path.join(ctx.scratch, "log.ndjson")
-    ctx.drive(cases, logp, env={"VERIF_REPO": ctx.repo})
+    ctx.drive(cases, logp, env={"VERIF_REPO": ctx.repo}, shards=4)
     rng = random.Random(ctx.seed)
     nlines = fixtures = histories = 0
     kinds = set()
